@@ -12,7 +12,8 @@ import HttpServeModel.Model.Bytes
 
 namespace HS
 
-/-- `CHUNK_SIZE` -/
+/-- `CHUNK_SIZE`: the value the pinned crate uses. The semantics below take the read size as a
+parameter `cs`; this constant only serves as a default and in examples. -/
 def kChunkSize : Nat := 65536
 
 /-- `ChunkedReadFile::etag`: `"{inode:x}:{len:x}:{secs:x}:{nanos:x}"` in double quotes. -/
@@ -43,18 +44,19 @@ def filePoll (a b size k : Nat) : (Nat × Nat) × FOut :=
   else if a ≥ size then ((a, b), .eof)
   else ((a + k, b), .chunk a k)
 
-/-- The read size the deterministic OS model picks: everything available up to the request. -/
-def fullRead (a b size : Nat) : Nat := min (min kChunkSize (b - a)) (size - a)
+/-- The read size the deterministic OS model picks when at most `cs` bytes are read per poll:
+everything available up to the request. -/
+def fullRead (cs a b size : Nat) : Nat := min (min cs (b - a)) (size - a)
 
 /-- Poll once per element of `sizes` (the file's size at the time of each poll), stopping
 after the stream has ended. -/
-def fileRun (a b : Nat) : List Nat → List FOut
+def fileRun (cs a b : Nat) : List Nat → List FOut
   | [] => []
   | size :: rest =>
-    let (st, o) := filePoll a b size (fullRead a b size)
+    let (st, o) := filePoll a b size (fullRead cs a b size)
     match o with
     | .end_ => [o]
-    | _ => o :: fileRun st.1 st.2 rest
+    | _ => o :: fileRun cs st.1 st.2 rest
 
 end HS
 
